@@ -7,6 +7,9 @@
 //!   After every step the oracle below is evaluated on what the real code shows, and the whole run
 //!   (point reached, current/min version, both counters after each step, result of every acquire) is
 //!   also replayed by the Coq model on the same schedule.
+//! Cell `concx/L<level>`: the same with with_*_token, tokens handed between threads, 40-item retirements, gated bulk reclaim
+//!   on a list of any threshold, clear_all_stats; replayed by the same model (coq/C16/Model.v `concb_ok`).
+//! Cell `lazy_free_list`: LazyFreeList scripts, replayed by coq/C16/ModelLazy.v `lazy_ok`.
 //! Cell `seq`: one thread, several managers, tokens cached / dropped / managers dropped in any order.
 //!
 //! The oracle decides the property text directly (independent of the model):
@@ -1467,7 +1470,7 @@ fn rand_prog(r: &mut Rng, len: usize, cache: bool) -> Vec<Op> {
 
 pub fn run(args: &Args) {
     let mut cx = Ctx {
-        sum: Summary::new("C16", "real threads parked at schedule hooks before every shared access of acquire/release/try_advance; all schedules with a bounded number of pre-emptions (all schedules for the single-operation races) of fixed 2-3 thread programs at every ConcurrencyLevel, random programs under random schedules, sequential histories over 1-3 managers with cached tokens and manager drops; a concurrent run is non-trivial when it has >= 2 context switches at a level that tracks versions, a sequential one when it has >= 2 managers and >= 5 operations; distinct = distinct (programs, executed schedule). Oracle breadth (cells concx/L*, seqx, long, lazy_free_list; oracle only, not replayed by the model): with_reader_token / with_writer_token (closure succeeds, fails, panics, asks for a second token, nested) and TokenAccess::{read,write}_with_manager, TokenManager::with_version_manager (several doors to one set of counters), a TokenCache owned by the history (cache_*_token, get_*_token, get_*_token_for, clear), tokens handed to and released by another thread (dropped, cached there, thread exit), clear_all_stats / clear_stats between operations, validate_token_version and issued_by of every held token against every manager after every step, VersionManagerStats::active_readers/active_writers against the counters, tokens lent to CompressedSparseTrie::*_with_token, LazyFreeList::{default, with_bulk_threshold 0..usize::MAX, should_bulk_process-gated processing, clear_stats, can_free}, 40-item retirements in controlled runs, generated single-thread histories of up to 500000 operations (named by level, n, seed, threshold) with versions and queues beyond 2^16"),
+        sum: Summary::new("C16", "real threads parked at schedule hooks before every shared access of acquire/release/try_advance; all schedules with a bounded number of pre-emptions (all schedules for the single-operation races) of fixed 2-3 thread programs at every ConcurrencyLevel, random programs under random schedules, sequential histories over 1-3 managers with cached tokens and manager drops; a concurrent run is non-trivial when it has >= 2 context switches at a level that tracks versions, a sequential one when it has >= 2 managers and >= 5 operations; distinct = distinct (programs, executed schedule). Oracle breadth (cells concx/L*, lazy_free_list: replayed by the model since the model extension; seqx, long: oracle only): with_reader_token / with_writer_token (closure succeeds, fails, panics, asks for a second token, nested) and TokenAccess::{read,write}_with_manager, TokenManager::with_version_manager (several doors to one set of counters), a TokenCache owned by the history (cache_*_token, get_*_token, get_*_token_for, clear), tokens handed to and released by another thread (dropped, cached there, thread exit), clear_all_stats / clear_stats between operations, validate_token_version and issued_by of every held token against every manager after every step, VersionManagerStats::active_readers/active_writers against the counters, tokens lent to CompressedSparseTrie::*_with_token, LazyFreeList::{default, with_bulk_threshold 0..usize::MAX, should_bulk_process-gated processing, clear_stats, can_free}, 40-item retirements in controlled runs, generated single-thread histories of up to 500000 operations (named by level, n, seed, threshold) with versions and queues beyond 2^16"),
         shards: CoqShards::new(HEADER, 300),
         coq_budget: if args.thorough { 7500 } else { 1500 },
         rng: Rng::new(args.seed),
